@@ -289,6 +289,7 @@ PROPS = {
     "C04": {
         "bridge": RENDER + TABLES,
         "sweeps": [sweep_front("matching", 150, 4000, cats=["body", "slice", "stderr"]),
+                   sweep_front("plain", 60, 3000, cats=["body", "slice", "stderr"]),
                    sweep_front("mixed", 60, 2000, cats=["body", "slice", "stderr"])],
         "rule": FRONT_RULE % "matching" + SPEC_RULE,
         "explanation": "fieldDefault_spec: the default matcher returns `no match` exactly when every candidate (getters under :getter "
